@@ -1,0 +1,50 @@
+//go:build verif
+
+package ante
+
+// Contracts for the deductive checker in /verif (comment-only; compiled only with -tags verif).
+// Lib specs: /verif/specs/lib/60_ante.spec; Disabled(), type_url() come from app/ante/cosmos and the lib spec.
+
+/*@
+// ------------------------------------------------------------------ C06: routing by the first extension option
+// The three handler constructors are effect-free builders: the handler they return is a function of the options.
+// (`pure as` is an assumption about them; their bodies are checked below only for the shape of the decorator chain.)
+func newEVMAnteHandler
+    pure as evm_handler
+func newLegacyCosmosAnteHandlerEip712
+    pure as eip712_handler
+    call ChainAnteDecorators requires reject_first: len(chain) >= 2
+            && typeof(chain[0]) == typetag("github.com/haqq-network/haqq/app/ante/cosmos.RejectMessagesDecorator")
+    call ChainAnteDecorators requires authz_second: typeof(chain[1]) == typetag("github.com/haqq-network/haqq/app/ante/cosmos.AuthzLimiterDecorator")
+            && Disabled(unbox(chain[1], "github.com/haqq-network/haqq/app/ante/cosmos.AuthzLimiterDecorator"),
+                        type_url(typetag("*github.com/haqq-network/haqq/x/evm/types.MsgEthereumTx")))
+            && Disabled(unbox(chain[1], "github.com/haqq-network/haqq/app/ante/cosmos.AuthzLimiterDecorator"),
+                        type_url(typetag("*github.com/cosmos/cosmos-sdk/x/auth/vesting/types.MsgCreateVestingAccount")))
+func newCosmosAnteHandler
+    pure as cosmos_handler
+    call ChainAnteDecorators requires reject_first: len(chain) >= 2
+            && typeof(chain[0]) == typetag("github.com/haqq-network/haqq/app/ante/cosmos.RejectMessagesDecorator")
+    call ChainAnteDecorators requires authz_second: typeof(chain[1]) == typetag("github.com/haqq-network/haqq/app/ante/cosmos.AuthzLimiterDecorator")
+            && Disabled(unbox(chain[1], "github.com/haqq-network/haqq/app/ante/cosmos.AuthzLimiterDecorator"),
+                        type_url(typetag("*github.com/haqq-network/haqq/x/evm/types.MsgEthereumTx")))
+            && Disabled(unbox(chain[1], "github.com/haqq-network/haqq/app/ante/cosmos.AuthzLimiterDecorator"),
+                        type_url(typetag("*github.com/cosmos/cosmos-sdk/x/auth/vesting/types.MsgCreateVestingAccount")))
+
+// The closure returned by NewAnteHandler (go/ssa name NewAnteHandler$1; `options` is its captured variable).
+func NewAnteHandler$1
+    let hasExt = implements(tx, "github.com/cosmos/cosmos-sdk/x/auth/ante.HasExtensionOptionsTx")
+    let opts = tx_extopts(tx)
+    let url = any_url(tx_extopts(tx)[0])
+    let withOpt = implements(tx, "github.com/cosmos/cosmos-sdk/x/auth/ante.HasExtensionOptionsTx") && len(tx_extopts(tx)) > 0
+    let EVM = "/ethermint.evm.v1.ExtensionOptionsEthereumTx"
+    let WEB3 = "/ethermint.types.v1.ExtensionOptionsWeb3Tx"
+    let DYN = "/ethermint.types.v1.ExtensionOptionDynamicFeeTx"
+    // whichever handler runs is the one built by the constructor selected by the first extension option
+    call anteHandler requires route: anteHandler == ite(withOpt,
+            ite(url == EVM, evm_handler(options), ite(url == WEB3, eip712_handler(options), cosmos_handler(options))),
+            cosmos_handler(options))
+    call anteHandler requires known: withOpt ==> url == EVM || url == WEB3 || url == DYN
+    call anteHandler requires args: ctx == old(ctx) && tx == old(tx) && sim == old(sim)
+    // an unknown first extension option is rejected without running any handler
+    ensures unknown: withOpt && url != EVM && url != WEB3 && url != DYN ==> err != nil && newCtx == ctx
+@*/
